@@ -1,5 +1,6 @@
 import AffVerif.Proofs.IterLemmas
 import AffVerif.Proofs.BfsLemmas
+import AffVerif.Proofs.TreeLemmas
 /-!
 # C13 — traversals and tree metrics are exact for every shape and start node
 
@@ -7,7 +8,10 @@ import AffVerif.Proofs.BfsLemmas
 pushed and forget it", callable any number of times after any item); `refDfsT` / `refEdgeK` are plain structural
 recursions: pre-order, children by ascending label, sub-trees of the items marked in the schedule omitted.
 Any branching factor, any start node (`start` is the sub-tree the traversal is started at), no bound on size.
-Core Lean only (no Mathlib): axioms `propext`, `Quot.sound` at most.
+The traversal theorems use core Lean only; the metric theorems at the end (`C13_depth`, `C13_num_terminals`,
+`C13_path_to_node`: the quantities the code computes from the traversals, the arena flags and the parent links are
+the structural height, terminal count and root path) use the arena lemmas of `Proofs/TreeLemmas` (two `Mathlib.Data.List`
+modules).
 -/
 namespace AV
 variable {β : Type}
@@ -122,5 +126,334 @@ example : (Dfs.run (fun k => if k = 1 then 2 else 0) exTree.size (Dfs.new exTree
 
 example : (BfsM.run (fun k => if k = 1 then 1 else 0) exTree.size (BfsM.new exTree exTree) 0).map (·.1.idx) = [0, 1, 2] := by
   decide
+
+/-! ### metrics as consequences of the traversals -/
+
+theorem foldr_max_append (a b : List Nat) : (a ++ b).foldr max 0 = max (a.foldr max 0) (b.foldr max 0) := by
+  induction a with
+  | nil => simp
+  | cons x a ih => simp only [List.cons_append, List.foldr_cons, ih]; omega
+
+theorem IKids.height_of_count_zero (ks : IKids β) (h : ks.count = 0) : ks.height = 0 := by
+  match ks with
+  | .nil => rfl
+  | .cons none r => simp only [IKids.count] at h; simp only [IKids.height]; exact IKids.height_of_count_zero r h
+  | .cons (some t) r => simp [IKids.count] at h
+
+mutual
+theorem refDfsT_maxDepth (d : Nat) (t : ITree β) (r k : Nat) :
+    ((refDfsT (fun _ => 0) d t r k).1.map (·.depth)).foldr max 0 = d + t.height := by
+  match t with
+  | .node i v ks =>
+    have := refDfsK_maxDepth d ks (k+1)
+    simp only [refDfsT, ne_eq, not_true_eq_false, if_false, List.map_cons, List.foldr_cons, ITree.height]
+    rw [this]
+    split
+    · rename_i hc; rw [IKids.height_of_count_zero ks hc]; omega
+    · omega
+theorem refDfsK_maxDepth (d : Nat) (ks : IKids β) (k : Nat) :
+    ((refDfsK (fun _ => 0) (d+1) ks k).1.map (·.depth)).foldr max 0 = if ks.count = 0 then 0 else d + ks.height := by
+  match ks with
+  | .nil => simp [refDfsK, IKids.count]
+  | .cons none r =>
+    simp only [refDfsK, IKids.count, IKids.height]
+    exact refDfsK_maxDepth d r k
+  | .cons (some t) r =>
+    simp only [refDfsK, List.map_append, foldr_max_append, IKids.height]
+    rw [refDfsT_maxDepth (d+1) t r.count k, refDfsK_maxDepth d r _]
+    have hne : ¬ ((IKids.cons (some t) r).count = 0) := by simp [IKids.count]
+    rw [if_neg hne]
+    split
+    · rename_i hc; rw [IKids.height_of_count_zero r hc]; omega
+    · omega
+end
+
+/-- `depth()`: the largest depth reported by the depth-first traversal is the height of the tree -/
+theorem C13_depth (t : ITree β) :
+    ((refDfsT (fun _ => 0) 0 t 0 0).1.map (·.depth)).foldr max 0 = t.height := by
+  rw [refDfsT_maxDepth]; omega
+
+theorem IKids.allNone_arena (ks : IKids β) (p : Nat) (h : ks.allNone = true) : ks.toArenaAux p = [] ∧ ks.numTerminals = 0 := by
+  match ks with
+  | .nil => simp [IKids.toArenaAux, IKids.numTerminals]
+  | .cons none r =>
+    simp only [IKids.allNone] at h
+    simp only [IKids.toArenaAux, IKids.numTerminals]
+    exact IKids.allNone_arena r p h
+  | .cons (some t) r => simp [IKids.allNone] at h
+
+mutual
+theorem ITree.arena_leaf_count (t : ITree β) (p : Option Nat) :
+    ((t.toArenaAux p).filter (·.isleaf)).length = t.numTerminals := by
+  match t with
+  | .node i v ks =>
+    simp only [ITree.toArenaAux, ITree.numTerminals, List.filter_cons]
+    cases h : ks.allNone with
+    | true =>
+      obtain ⟨h1, _⟩ := IKids.allNone_arena ks i h
+      simp [h1]
+    | false =>
+      simp only [Bool.false_eq_true, if_false]
+      exact IKids.arena_leaf_count ks i
+theorem IKids.arena_leaf_count (ks : IKids β) (p : Nat) :
+    ((ks.toArenaAux p).filter (·.isleaf)).length = ks.numTerminals := by
+  match ks with
+  | .nil => simp [IKids.toArenaAux, IKids.numTerminals]
+  | .cons none r => simp only [IKids.toArenaAux, IKids.numTerminals]; exact IKids.arena_leaf_count r p
+  | .cons (some t) r =>
+    simp only [IKids.toArenaAux, IKids.numTerminals, List.filter_append, List.length_append]
+    rw [ITree.arena_leaf_count t (some p), IKids.arena_leaf_count r p]
+end
+
+/-- `num_terminals()` (the number of arena nodes flagged as leaves) is the number of terminals of the tree -/
+theorem C13_num_terminals (t : ITree β) : (t.toArena.filter (·.isleaf)).length = t.numTerminals :=
+  ITree.arena_leaf_count t none
+
+
+/-! ### `path_to_node` climbs the parent links -/
+
+mutual
+theorem ITree.pathTo?_none_iff (t : ITree β) (i : Nat) : t.pathTo? i = none ↔ i ∉ t.indices := by
+  match t with
+  | .node j v ks =>
+    simp only [ITree.pathTo?, ITree.indices, List.mem_cons, not_or]
+    by_cases h : j = i
+    · simp [h]
+    · simp only [h, if_false]
+      rw [IKids.pathTo?_none_iff ks j 0 i]
+      constructor
+      · intro h2; exact ⟨fun e => h e.symm, h2⟩
+      · intro h2; exact h2.2
+theorem IKids.pathTo?_none_iff (ks : IKids β) (p l i : Nat) : ks.pathTo? p l i = none ↔ i ∉ ks.indices := by
+  match ks with
+  | .nil => simp [IKids.pathTo?, IKids.indices]
+  | .cons none r => simp only [IKids.pathTo?, IKids.indices]; exact IKids.pathTo?_none_iff r p (l+1) i
+  | .cons (some t) r =>
+    simp only [IKids.pathTo?, IKids.indices, List.mem_append, not_or]
+    cases ht : t.pathTo? i with
+    | some path =>
+      simp only [reduceCtorEq, false_iff, not_and]
+      intro hn
+      exact absurd ((ITree.pathTo?_none_iff t i).mpr hn) (by rw [ht]; simp)
+    | none =>
+      simp only
+      rw [IKids.pathTo?_none_iff r p (l+1) i]
+      constructor
+      · intro h2; exact ⟨(ITree.pathTo?_none_iff t i).mp ht, h2⟩
+      · intro h2; exact h2.2
+end
+
+theorem ITree.pathTo?_root (t : ITree β) : t.pathTo? t.idx = some [] := by
+  cases t with
+  | node j v ks => simp [ITree.pathTo?, ITree.idx]
+
+/-- a direct child at slot `k` has the one-step path -/
+theorem IKids.pathTo?_direct (ks : IKids β) (p l0 k : Nat) (c : ITree β) (hnd : ks.indices.Nodup)
+    (h : ks.get? k = some c) : ks.pathTo? p l0 c.idx = some [(p, l0 + k)] := by
+  match ks, k with
+  | .nil, _ => simp [IKids.get?] at h
+  | .cons none r, 0 => simp [IKids.get?] at h
+  | .cons (some t) r, 0 =>
+    simp only [IKids.get?, Option.some.injEq] at h; subst h
+    simp [IKids.pathTo?, ITree.pathTo?_root]
+  | .cons none r, k+1 =>
+    simp only [IKids.get?] at h
+    simp only [IKids.indices] at hnd
+    simp only [IKids.pathTo?]
+    rw [IKids.pathTo?_direct r p (l0+1) k c hnd h]; congr 3; omega
+  | .cons (some t) r, k+1 =>
+    simp only [IKids.get?] at h
+    simp only [IKids.indices] at hnd
+    have hnd' := List.nodup_append.mp hnd
+    have hcr : c.idx ∈ r.indices := IKids.members_idx_mem r c (IKids.get?_mem_members r k c h)
+    have hct : c.idx ∉ t.indices := fun hm => hnd'.2.2 _ hm _ hcr rfl
+    simp only [IKids.pathTo?]
+    rw [(ITree.pathTo?_none_iff t c.idx).mpr hct]
+    simp only
+    rw [IKids.pathTo?_direct r p (l0+1) k c hnd'.2.1 h]; congr 3; omega
+
+mutual
+/-- the path to the child in slot `l` of a listed sub-tree `s` is the path to `s` followed by `(s, l)` -/
+theorem ITree.pathTo?_of_child (t : ITree β) (q0 : Option Nat) (hnd : t.indices.Nodup) :
+    ∀ sq ∈ t.subs q0, ∀ l c, sq.1.kids.get? l = some c → ∀ pre, t.pathTo? sq.1.idx = some pre →
+      t.pathTo? c.idx = some (pre ++ [(sq.1.idx, l)]) := by
+  match t with
+  | .node j v ks =>
+    intro sq hsq l c hc pre hpre
+    simp only [ITree.subs, List.mem_cons] at hsq
+    simp only [ITree.indices, List.nodup_cons] at hnd
+    have hcs : c.idx ∈ sq.1.kids.indices := IKids.members_idx_mem _ c (IKids.get?_mem_members _ l c hc)
+    rcases hsq with h | h
+    · subst h
+      simp only [ITree.kids] at hc hcs
+      simp only [ITree.idx, ITree.pathTo?, if_true, Option.some.injEq] at hpre
+      subst hpre
+      have hne : j ≠ c.idx := fun e => hnd.1 (e ▸ hcs)
+      simp only [ITree.pathTo?]
+      rw [if_neg hne]
+      have := IKids.pathTo?_direct ks j 0 l c hnd.2 hc
+      rw [this]
+      simp [ITree.idx]
+    · have hin : ∀ i ∈ sq.1.indices, i ∈ ks.indices := IKids.subs_indices_sub ks j sq h
+      have hsi : sq.1.idx ∈ ks.indices := hin _ (ITree.idx_mem_indices sq.1)
+      have hci : c.idx ∈ ks.indices := hin _ (ITree.kids_indices_sub sq.1 _ hcs)
+      have hne1 : j ≠ sq.1.idx := fun e => hnd.1 (e ▸ hsi)
+      have hne2 : j ≠ c.idx := fun e => hnd.1 (e ▸ hci)
+      simp only [ITree.pathTo?, hne1, hne2, if_false] at hpre ⊢
+      exact IKids.pathTo?_of_child ks j 0 hnd.2 sq h l c hc pre hpre
+theorem IKids.pathTo?_of_child (ks : IKids β) (p l0 : Nat) (hnd : ks.indices.Nodup) :
+    ∀ sq ∈ ks.subs p, ∀ l c, sq.1.kids.get? l = some c → ∀ pre, ks.pathTo? p l0 sq.1.idx = some pre →
+      ks.pathTo? p l0 c.idx = some (pre ++ [(sq.1.idx, l)]) := by
+  match ks with
+  | .nil => simp [IKids.subs]
+  | .cons none r =>
+    simp only [IKids.subs, IKids.pathTo?, IKids.indices] at hnd ⊢
+    exact IKids.pathTo?_of_child r p (l0+1) hnd
+  | .cons (some t) r =>
+    intro sq hsq l c hc pre hpre
+    simp only [IKids.subs, List.mem_append] at hsq
+    simp only [IKids.indices] at hnd
+    have hnd' := List.nodup_append.mp hnd
+    have hcs : c.idx ∈ sq.1.kids.indices := IKids.members_idx_mem _ c (IKids.get?_mem_members _ l c hc)
+    simp only [IKids.pathTo?] at hpre ⊢
+    rcases hsq with h | h
+    · have hsub : ∀ i ∈ sq.1.indices, i ∈ t.indices := ITree.subs_indices_sub t (some p) sq h
+      have hsi : sq.1.idx ∈ t.indices := hsub _ (ITree.idx_mem_indices sq.1)
+      cases hts : t.pathTo? sq.1.idx with
+      | none => exact absurd ((ITree.pathTo?_none_iff t _).mp hts) (by simpa using hsi)
+      | some path =>
+        rw [hts] at hpre
+        simp only [Option.some.injEq] at hpre
+        subst hpre
+        rw [ITree.pathTo?_of_child t (some p) hnd'.1 sq h l c hc path hts]
+        simp
+    · have hsub : ∀ i ∈ sq.1.indices, i ∈ r.indices := IKids.subs_indices_sub r p sq h
+      have hsi : sq.1.idx ∈ r.indices := hsub _ (ITree.idx_mem_indices sq.1)
+      have hci : c.idx ∈ r.indices := hsub _ (ITree.kids_indices_sub sq.1 _ hcs)
+      have h1 : sq.1.idx ∉ t.indices := fun hm => hnd'.2.2 _ hm _ hsi rfl
+      have h2 : c.idx ∉ t.indices := fun hm => hnd'.2.2 _ hm _ hci rfl
+      rw [(ITree.pathTo?_none_iff t _).mpr h1] at hpre
+      rw [(ITree.pathTo?_none_iff t _).mpr h2]
+      simp only at hpre ⊢
+      exact IKids.pathTo?_of_child r p (l0+1) hnd'.2.1 sq h l c hc pre hpre
+end
+
+
+theorem IKids.members_get? (ks : IKids β) (c : ITree β) (h : c ∈ ks.members) : ∃ l, ks.get? l = some c := by
+  match ks with
+  | .nil => simp [IKids.members] at h
+  | .cons none r =>
+    simp only [IKids.members] at h
+    obtain ⟨l, hl⟩ := IKids.members_get? r c h
+    exact ⟨l+1, by simpa [IKids.get?] using hl⟩
+  | .cons (some t) r =>
+    simp only [IKids.members, List.mem_cons] at h
+    rcases h with h | h
+    · exact ⟨0, by simp [IKids.get?, h]⟩
+    · obtain ⟨l, hl⟩ := IKids.members_get? r c h
+      exact ⟨l+1, by simpa [IKids.get?] using hl⟩
+
+/-- the loop of `path_to_node` (climb the parent links, then reverse) yields the path from the root, for every node of
+    every tree with pairwise distinct indices, as soon as the fuel covers the length of the path (`len()` always does) -/
+theorem ITree.pathUp_eq (t : ITree β) (hnd : t.indices.Nodup) (n : Nat) :
+    ∀ sq ∈ t.subs none, ∀ path, t.pathTo? sq.1.idx = some path → path.length = n →
+      ∀ fuel, n ≤ fuel → (ITree.pathUp t fuel sq.1.idx).reverse = path := by
+  induction n with
+  | zero =>
+    intro sq hsq path hp hlen fuel _
+    have : path = [] := List.length_eq_zero_iff.mp hlen
+    subst this
+    -- a node with the empty path is the root
+    rcases ITree.subs_up t none sq hsq with h | ⟨sq', h1, h2, h3⟩
+    · subst h
+      cases fuel with
+      | zero => simp [ITree.pathUp]
+      | succ f => simp [ITree.pathUp, ITree.parentOf?_root t hnd]
+    · obtain ⟨l, hl⟩ := IKids.members_get? _ _ h3
+      have hs' : (t.pathTo? sq'.1.idx).isSome := by
+        cases h : t.pathTo? sq'.1.idx with
+        | some _ => rfl
+        | none =>
+          exact absurd ((ITree.pathTo?_none_iff t _).mp h)
+            (by simpa using ITree.subs_indices_sub t none sq' h1 _ (ITree.idx_mem_indices sq'.1))
+      obtain ⟨pre, hpre⟩ := Option.isSome_iff_exists.mp hs'
+      have := ITree.pathTo?_of_child t none hnd sq' h1 l sq.1 hl pre hpre
+      rw [hp] at this
+      simp at this
+  | succ n ih =>
+    intro sq hsq path hp hlen fuel hfuel
+    rcases ITree.subs_up t none sq hsq with h | ⟨sq', h1, h2, h3⟩
+    · subst h
+      rw [ITree.pathTo?_root] at hp
+      simp only [Option.some.injEq] at hp
+      subst hp; simp at hlen
+    · obtain ⟨l, hl⟩ := IKids.members_get? _ _ h3
+      have hs' : (t.pathTo? sq'.1.idx).isSome := by
+        cases h : t.pathTo? sq'.1.idx with
+        | some _ => rfl
+        | none =>
+          exact absurd ((ITree.pathTo?_none_iff t _).mp h)
+            (by simpa using ITree.subs_indices_sub t none sq' h1 _ (ITree.idx_mem_indices sq'.1))
+      obtain ⟨pre, hpre⟩ := Option.isSome_iff_exists.mp hs'
+      have hfw := ITree.pathTo?_of_child t none hnd sq' h1 l sq.1 hl pre hpre
+      rw [hp] at hfw
+      simp only [Option.some.injEq] at hfw
+      subst hfw
+      have hpar := ITree.parentOf?_of_child t none hnd sq' h1 l sq.1 hl
+      have hlen' : pre.length = n := by simpa using hlen
+      cases fuel with
+      | zero => omega
+      | succ f =>
+        simp only [ITree.pathUp, hpar, List.reverse_cons]
+        rw [ih sq' h1 pre hpre hlen' f (by omega)]
+
+mutual
+theorem ITree.pathTo?_length (t : ITree β) (i : Nat) (path : List (Nat × Nat)) (h : t.pathTo? i = some path) :
+    path.length < t.size := by
+  match t with
+  | .node j v ks =>
+    simp only [ITree.pathTo?] at h
+    simp only [ITree.size]
+    split at h
+    · simp only [Option.some.injEq] at h; subst h; simp only [List.length_nil]; omega
+    · have := IKids.pathTo?_length ks j 0 i path h; omega
+theorem IKids.pathTo?_length (ks : IKids β) (p l i : Nat) (path : List (Nat × Nat)) (h : ks.pathTo? p l i = some path) :
+    path.length ≤ ks.size := by
+  match ks with
+  | .nil => simp [IKids.pathTo?] at h
+  | .cons none r =>
+    simp only [IKids.pathTo?] at h
+    simp only [IKids.size]
+    exact IKids.pathTo?_length r p (l+1) i path h
+  | .cons (some t) r =>
+    simp only [IKids.pathTo?] at h
+    simp only [IKids.size]
+    cases ht : t.pathTo? i with
+    | some sub =>
+      rw [ht] at h
+      simp only [Option.some.injEq] at h
+      subst h
+      have := ITree.pathTo?_length t i sub ht
+      simp only [List.length_cons]; omega
+    | none =>
+      rw [ht] at h
+      have := IKids.pathTo?_length r p (l+1) i path h
+      omega
+end
+
+/-- `path_to_node(i)` for every node `i` of a tree with distinct indices: climbing the parent links with fuel `len()`
+    and reversing gives the `(node, label)` pairs from the root down to `i` -/
+theorem C13_path_to_node (t : ITree β) (hnd : t.indices.Nodup) (i : Nat) (hi : i ∈ t.indices) :
+    ∃ path, t.pathTo? i = some path ∧ (ITree.pathUp t t.size i).reverse = path := by
+  cases hp : t.pathTo? i with
+  | none => exact absurd ((ITree.pathTo?_none_iff t i).mp hp) (by simpa using hi)
+  | some path =>
+    refine ⟨path, rfl, ?_⟩
+    -- the node with index i is a listed sub-tree
+    rw [← ITree.subs_idx t none] at hi
+    obtain ⟨sq, hsq, rfl⟩ := List.mem_map.mp hi
+    -- the path is shorter than the tree
+    have hlen := ITree.pathTo?_length t _ path hp
+    exact ITree.pathUp_eq t hnd path.length sq hsq path hp rfl t.size (by omega)
 
 end AV
